@@ -901,6 +901,32 @@ pub fn run(opts: &Opts, out: &mut Emitter) {
     for (name, text) in corpus.iter() {
         out.case("corpus", || json!({"input": text, "name": name, "obs": observe(text)}));
     }
+    // (a'') call-arity sweep: every callable name with 0-3 arguments of every kind, in every position an
+    // expression can stand in (the arity of a built-in is only enforced by lowering: whatever looks at the
+    // arguments earlier must not assume there are any)
+    for f in ["min_utxo", "tip_slot", "slot_to_time", "time_to_slot", "Ada", "Tok", "nowhere"] {
+        for n in 0..=3usize {
+            for arg in ["o", "A", "x", "1", "src"] {
+                if n == 0 && arg != "o" {
+                    continue;
+                }
+                let call = format!("{f}({})", vec![arg; n].join(", "));
+                for slot in 0..5 {
+                    let (local, amount, datum, since, min) = match slot {
+                        0 => ("1", call.as_str(), "x", "1", "Ada(1)"),
+                        1 => (call.as_str(), "Ada(v)", "x", "1", "Ada(1)"),
+                        2 => ("1", "Ada(1)", call.as_str(), "1", "Ada(1)"),
+                        3 => ("1", "Ada(1)", "x", call.as_str(), "Ada(1)"),
+                        _ => ("1", "Ada(1)", "x", "1", call.as_str()),
+                    };
+                    let text = format!(
+                        "party A;\npolicy P = 0xABCDEF1234;\nasset Tok = P.\"TK\";\ntx t(x: Int) {{\n  locals {{\n    v: {local},\n  }}\n  validity {{\n    since_slot: {since},\n  }}\n  input src {{\n    from: A,\n    min_amount: {min},\n  }}\n  output o {{\n    to: A,\n    amount: {amount},\n    datum: {datum},\n  }}\n}}\n"
+                    );
+                    out.case("call-arity", || json!({"input": text, "obs": observe(&text)}));
+                }
+            }
+        }
+    }
     // (a') literal sweep: every literal token of every example replaced, one at a time, by a
     // pathological literal of each kind (position-complete over the corpus, no sampling)
     for (name, text) in corpus.iter() {
